@@ -260,31 +260,31 @@ SkippedToBack(s, skipped) ==
 HandleUpsert(s0, c0, r) ==
     LET sA == [s0 EXCEPT !.info[r.i].dirty = FALSE]
         i == r.i
-        \* F10 repaired: room held by expired or invalidated entries is reclaimed before a
-        \* candidate that does not fit is judged
-        pg == IF "F10" \notin Dev /\ ~sA.info[i].adm /\ ~FitsC(sA, c0, r.nw)
-                 /\ (HasExpiry(sA) \/ sA.va # None)
-              THEN EvictExpired(sA, c0) ELSE <<sA, c0>>
-        s == pg[1]
-        c == pg[2]
         \* is the map's entry the very ValueEntry this record carries?
-        current == s.map[r.k].p /\ s.map[r.k].i = i /\ s.map[r.k].n = r.n
-        RemoveOwn(st) == IF "F5" \in Dev \/ current THEN MapRemove(st, r.k) ELSE st
-    IN IF s.info[i].adm
+        Current(st) == st.map[r.k].p /\ st.map[r.k].i = i /\ st.map[r.k].n = r.n
+    IN IF sA.info[i].adm
        THEN IF "F9" \in Dev
-            THEN <<EmitMx(MoveBackWo(MoveBackAo(s, i), i), [t |-> "upsert.update", k |-> r.k]),
-                   <<c[1], SatSub(c[2], r.ow) + r.nw>>>>
-            ELSE <<EmitMx(MoveBackWo(MoveBackAo([s EXCEPT !.info[i].w = r.nw], i), i),
+            THEN <<EmitMx(MoveBackWo(MoveBackAo(sA, i), i), [t |-> "upsert.update", k |-> r.k]),
+                   <<c0[1], SatSub(c0[2], r.ow) + r.nw>>>>
+            ELSE <<EmitMx(MoveBackWo(MoveBackAo([sA EXCEPT !.info[i].w = r.nw], i), i),
                           [t |-> "upsert.update", k |-> r.k]),
-                   <<c[1], SatSub(c[2], s.info[i].w) + r.nw>>>>
-       ELSE IF "F5" \notin Dev /\ ~(s.map[r.k].p /\ s.map[r.k].i = i)
+                   <<c0[1], SatSub(c0[2], sA.info[i].w) + r.nw>>>>
+       ELSE IF "F5" \notin Dev /\ ~(sA.map[r.k].p /\ sA.map[r.k].i = i)
        THEN \* the entry left the map before it was admitted: nothing to do
-            <<s, c>>
-       ELSE IF "F12" \notin Dev /\ (ExpWoI(s, s.info[i]) \/ ExpAoI(s, s.info[i]))
-       THEN \* intended design: a candidate that is dead already (expired, or written before an
+            <<sA, c0>>
+       ELSE IF "F14" \notin Dev /\ (ExpWoI(sA, sA.info[i]) \/ ExpAoI(sA, sA.info[i]))
+       THEN \* F14 repaired: a candidate that is dead already (expired, or written before an
             \* invalidate_all) takes no part in a contest and displaces nobody
-            <<EmitMx(IF current THEN MapRemove(s, r.k) ELSE s, [t |-> "upsert.dead", k |-> r.k]), c>>
-       ELSE IF FitsC(s, c, r.nw)
+            <<EmitMx(IF Current(sA) THEN MapRemove(sA, r.k) ELSE sA, [t |-> "upsert.dead", k |-> r.k]), c0>>
+       ELSE
+       LET \* F10 repaired: room held by expired or invalidated entries is reclaimed before a
+           \* candidate that does not fit is judged
+           pg == IF "F10" \notin Dev /\ ~FitsC(sA, c0, r.nw) /\ (HasExpiry(sA) \/ sA.va # None)
+                 THEN EvictExpired(sA, c0) ELSE <<sA, c0>>
+           s == pg[1]
+           c == pg[2]
+           RemoveOwn(st) == IF "F5" \in Dev \/ Current(s) THEN MapRemove(st, r.k) ELSE st
+       IN IF FitsC(s, c, r.nw)
        THEN HandleAdmit(EmitMx(s, [t |-> "upsert.fit", k |-> r.k]), c, i, r.nw)
        ELSE IF r.nw > s.cfg.cap
        THEN <<EmitMx(RemoveOwn(s), [t |-> "upsert.oversize", k |-> r.k]), c>>
